@@ -367,6 +367,10 @@ inductive Op (α : Type) where
   /-- A fetch changed references: the objects in `changes` now evaluate to the given values; then
   `cache_cobs(refs)` runs `update_or_remove` for every non-skipped reference update. -/
   | fetched (changes : List (Id × Option α)) (refs : List RefUpd)
+  /-- The repository changes without any cache write: another program wrote to storage with the cache
+  disabled (`NoCache`), a cache write failed, the cache database is older than the storage… Not an
+  operation of the property's histories; it is what `write_all` exists to repair. -/
+  | external (changes : List (Id × Option α))
   /-- `Cache::write(id)`: re-read one object from the repository into the cache (error, nothing
   written, when the object does not exist). -/
   | rewrite (id : Id)
@@ -397,6 +401,7 @@ def Store.step {α : Type} (enc : α → Json) (s : Store α) : Op α → Store 
   | .fetched changes refs =>
     let truth := applyChanges s.truth changes
     { truth, cache := cacheCobs enc truth s.cache refs }
+  | .external changes => { s with truth := applyChanges s.truth changes }
   | .rewrite id =>
     match s.truth.lookup id with
     | some o => { s with cache := s.cache.upsert id (enc o) }
